@@ -226,6 +226,14 @@ def run(shard, ctx):
                     for n in rng.sample(pool, min(len(pool), rng.randint(1, 3))):
                         int(n), n < Note("C", 4)
                         n.name, n.octave = rng.choice(["C", "D", "E", "F", "G", "A", "B"]), rng.randint(2, 6)
+                if si > 0 and rng.random() < 0.35:
+                    # between two operations an entry gets new content through bar[i] = ... (a name, a list of names, a
+                    # container): what was there before is no longer in the bar, what is there now is transposed next
+                    cands = [(b, i) for b in t.bars for i in range(len(b.bar))]
+                    for (b, i) in rng.sample(cands, min(len(cands), rng.randint(1, 2))):
+                        new = rng.choice(["name", "list", "container"])
+                        nms = rng.sample(["C", "D", "E", "F", "G", "A", "B"], rng.randint(1, 3))
+                        b[i] = nms[0] if new == "name" else nms if new == "list" else NoteContainer([Note(x, rng.randint(2, 5)) for x in nms])
                 before = MU.snap_track(t)
                 w = {"track": ti, "level": level, "steps": steps[:si + 1], "bars": len(before)}
                 if level == "track":
